@@ -98,6 +98,19 @@ func c13(r *mon.Run) {
 	}
 	fixed = append(fixed, c06Specials()...)
 	fixed = append(fixed, c06HandBacks(false)...)
+	// every ordered pair of functions that take an array of numbers or an array of strings, side by side: what one leaves behind
+	// (a converted copy, a scratch slot) is not what the other picks up on the next search
+	for _, f := range []string{"max", "min", "sort", "sum", "avg"} {
+		for _, g := range []string{"max", "min", "sort", "join"} {
+			sarg := func() *gen.Expr { return gen.Field("as") }
+			gcall := gen.Func(g, sarg())
+			if g == "join" {
+				gcall = gen.Func("join", gen.Raw(","), sarg())
+			}
+			fixed = append(fixed, gen.MultiList(gen.Clone(gcall), gen.Func(f, gen.Field("an"))), gen.MultiList(gen.Func(f, gen.Field("an")), gen.Clone(gcall)),
+				gen.MultiHash([]gen.Key{{Name: "last"}, {Name: "mean"}}, []*gen.Expr{gen.Clone(gcall), gen.Func(f, gen.Chain(gen.Field("ao"), gen.StListStar(), gen.StField("n")))}))
+		}
+	}
 	fixed = append(fixed,
 		gen.Pipe(gen.LitJSON("[3,1,2]"), gen.MultiList(gen.Chain(gen.Current(), gen.StIndex(0)), gen.Chain(gen.Func("sort_by", gen.Current(), gen.ExpRef(gen.Current())), gen.StIndex(0)))),
 		gen.Pipe(gen.LitJSON(`[{"n":2},{"n":1}]`), gen.MultiList(gen.Chain(gen.Current(), gen.StIndex(0)), gen.Func("sort_by", gen.Current(), gen.ExpRef(gen.Field("n"))), gen.Chain(gen.Current(), gen.StIndex(0)))),
@@ -793,7 +806,34 @@ func c13(r *mon.Run) {
 			}
 			t.Nontrivial("et:" + strconv.Itoa(i))
 		}}
-	r.Exec(hist, ph, pairs, lph, sh, lsh, tsu, rw, fel, twin, epw, nmw, alw, etw, collw)
+	// arithmetic whose running total leaves the float64 range, in histories: a search that ends in "out of range" (or takes the
+	// exact path) leaves nothing behind for the next one
+	ovExprs := []string{"sum(@)", "avg(@)", "[sum(@), avg(@)]", "sum(@) || `0`", "[avg(@), sum(@[:2])]", "sum(map(&@, @))", "{s: sum(@), n: length(@)}", "sum(@[?@ > `0`])", "avg(@[::-1])", "max(@)"}
+	ovDocs := []string{`[1e308,1e308]`, `[-1e308,-1e308,1e308]`, `[1e308,1e308,-1e308]`, `[1,2]`, `[-1e308,-1e308]`, `[1e308,-1e308,1e308,-1e308,5]`, `[1e308,1e308]`, `[3]`, `[1.7e308,1.7e308,-1.7e308]`, `[]`, `[-1e308,-1e308,1e308]`}
+	ovw := mon.Workload{Name: "overflowing-totals-in-histories", N: len(ovExprs), Batch: 2,
+		Describe: func(i int) string { return ovExprs[i] },
+		Do: func(i int, t *mon.Tally) {
+			expr := ovExprs[i]
+			jp, co := apiCompile(expr)
+			if co.Panicked || co.Err != nil {
+				r.Inconclusive("C13 workload expression does not compile: " + expr)
+				return
+			}
+			for pass := 0; pass < 2; pass++ {
+				for k, dt := range ovDocs {
+					d := docs.J(dt)
+					t.Eval()
+					got, fresh, one := canonOut(apiJP(jp, mon.DeepCopy(d))), canonOut(apiCompiledSearch(expr, mon.DeepCopy(d))), canonOut(apiSearch(expr, mon.DeepCopy(d)))
+					if got != fresh || got != one {
+						r.Violate(&mon.Violation{Workload: "overflowing-totals-in-histories", Index: i, API: "(*JMESPath).Search", Expr: expr, Doc: d,
+							Expected: fmt.Sprintf("pass %d, document %d: like a freshly compiled expression (%s) and the one-shot Search (%s)", pass+1, k+1, clipStr(fresh, 200), clipStr(one, 200)), Observed: clipStr(got, 200), Class: "an earlier search over an overflowing total changes a later answer"})
+						return
+					}
+				}
+			}
+			t.Nontrivial("ov:" + strconv.Itoa(i))
+		}}
+	r.Exec(hist, ph, pairs, lph, sh, lsh, tsu, rw, fel, twin, epw, nmw, alw, etw, collw, ovw)
 }
 
 // c13Rewritable: see the workload compiled-versus-one-shot-on-rewritable-shapes.
@@ -855,6 +895,9 @@ func c13Rewritable() ([]*gen.Expr, []interface{}) {
 			gen.Func("type", gen.Func("to_array", ch())), gen.Func("to_string", gen.Func("not_null", lit("null"), ch())), gen.MultiList(gen.Func("type", ch()), gen.Func("type", lit("1"))), gen.MultiHash(keyA("t"), []*gen.Expr{gen.Func("type", cln())}),
 		)
 	}
+	// line breaks inside raw strings and literals (CR LF, a lone CR): they are characters of the string whichever entry point reads them
+	trees = append(trees, gen.Func("length", gen.Raw("x\r\ny")), gen.Raw("a\r\nb"), gen.Cmp("==", gen.Raw("a\r\nb"), gen.Raw("a\nb")), gen.MultiList(gen.Raw("l1\r\nl2\rl3\n"), gen.LitVal("v\r\nw")), gen.Func("contains", gen.Raw("p\r\nq"), gen.Raw("\r")),
+		at(x(), gen.StFilter(gen.Cmp("!=", gen.Field("v"), gen.Raw("a\r\nb"))), gen.StField("v")), gen.Func("join", gen.Raw("\r\n"), ss()), gen.Func("length", gen.Func("join", gen.Raw("\r\n"), gen.MultiList(gen.Raw("a"), gen.Raw("b")))))
 	// negations of comparisons (the complement comparator is NOT the negation when an operand is no number), identity steps
 	for _, op := range []string{"==", "!=", "<", "<=", ">", ">="} {
 		trees = append(trees, gen.Not(gen.Paren(gen.Cmp(op, gen.Field("n"), gen.LitJSON("2")))), gen.Not(gen.Paren(gen.Cmp(op, gen.Field("s"), gen.Field("n")))), gen.Not(gen.Paren(gen.Cmp(op, gen.LitJSON("1"), gen.Field("z")))),
